@@ -61,6 +61,10 @@ GenCfg swarm(Rng &r, int tier) {
   if (c.wideRows) {
     c.maxLevels = (int)r.range(1, 3);
     c.bigScale = r.chance(0.7);
+    // no cells much lower than the rows here: bins are sized by the smallest positive cell
+    // height, and thousands of row heights of width would mean millions of bins
+    c.fixedZero = false;
+    c.turned = false;
   }
   return c;
 }
